@@ -595,8 +595,11 @@ func genScenario(r *vlib.Rand, big bool) []Step {
 			}
 			if r.Chance(1, 5) {
 				// jitter at or above the interval (inside the documented domain, see directedJitter): delays that are
-				// not positive fire at once
-				iv = int64(r.Range(0, 3))
+				// not positive fire at once. The interval stays positive here: with interval 0 every delay of a
+				// small jitter is <= 0, the function re-arms without the clock ever advancing, and the model's
+				// closure under "fires at this instant" does not end (a run of the check hung in the model
+				// driver: seed 106 of a background sweep); interval 0 is exercised by the directed pass only.
+				iv = int64(r.Range(1, 3))
 				j = iv + int64(r.Range(0, 2))
 			}
 			if big {
